@@ -49,7 +49,8 @@ vars == <<bs, buf, wake, wseq, idlePending, pend, tasks, pull, mailbox, now, out
 (*          tos       : same for raised TimeoutErrors;  dupto                                          *)
 (*          lastend   : <<step, uid>> -> [att, at] of the latest finished execution                    *)
 (*          early     : a retry started earlier than the documented delay after its failure            *)
-(*          startedAfterEnd : a step body started after the run ended ]                                *)
+(*          baddeliv  : a fresh event was not handed exactly once to exactly its accepting steps,      *)
+(*                      or an orphan event was not reported exactly once as unhandled ]                *)
 
 Live == outcome = "none"
 Wall == now + (IF Dev_ClockMix THEN WallEpoch ELSE 0)
@@ -142,7 +143,7 @@ Init ==
   /\ tickLog = <<>> /\ pubs = <<>>
   /\ mon = [nterm |-> 0, lastkind |-> "none", after |-> FALSE, slots |-> {}, bad35 |-> FALSE, asks |-> {}, askdup |-> FALSE,
             used |-> {}, duplist |-> FALSE, waits |-> {}, dupwait |-> FALSE, tos |-> {}, dupto |-> FALSE,
-            lastend |-> <<>>, early |-> FALSE]
+            lastend |-> <<>>, early |-> FALSE, baddeliv |-> FALSE]
 
 IsTerminal(p) == p.k \in {"stop", "failed", "cancelled", "timedout"}
 MonPub(m, p) ==
@@ -182,6 +183,21 @@ Exec(cmds, i, x) ==
       [] c.c = "engine_error" -> [x EXCEPT !.outcome = "error"]
       [] OTHER -> x)
 
+(* C02, declaratively: a fresh event (not a retry) is handed exactly once to every step that accepts exactly its    *)
+(* type (only to the addressed one if a target is given), except that a step whose waiter it resolves gets it as   *)
+(* its wait result instead; an event nobody takes is reported once as unhandled, unless it is an InputRequired.     *)
+CountUid(b, s, uid) == Cardinality({i \in 1..Len(b.steps[s].queue) : b.steps[s].queue[i].uid = uid})
+                       + Cardinality({i \in 1..Len(b.steps[s].ip) : b.steps[s].ip[i].uid = uid})
+BadDelivery(tick, pre, r) ==
+  IF tick.k # "add" \/ tick.att # -1 THEN FALSE
+  ELSE LET resolved == {s \in R!StepSet : \E i \in 1..Len(pre.steps[s].waiters) : R!WaiterMatches(pre.steps[s].waiters[i], tick)}
+           want(s) == s \notin resolved /\ tick.ty \in R!Accepts(s) /\ (tick.target = "*" \/ tick.target = s)
+           got(s) == CountUid(r.st, s, tick.uid) - CountUid(pre, s, tick.uid)
+           nunh == Cardinality({i \in 1..Len(r.cmds) : r.cmds[i].c = "publish" /\ r.cmds[i].p.k = "unhandled"})
+           orphan == resolved = {} /\ ~(\E s \in R!StepSet : want(s)) /\ ~R!IsInputRequired(tick.ty)
+       IN \/ \E s \in R!StepSet : got(s) # (IF want(s) THEN 1 ELSE 0) /\ ~(s \in resolved /\ tick.uid \in {pre.steps[s].waiters[i].uid : i \in 1..Len(pre.steps[s].waiters)})
+          \/ nunh # (IF orphan THEN 1 ELSE 0)
+
 (* one iteration of `while self.tick_buffer:` -- _process_tick *)
 Drain ==
   /\ Live /\ phase = "drain" /\ buf # <<>>
@@ -189,7 +205,8 @@ Drain ==
          r == R!Reduce(bs, tick, now)
          x0 == [buf |-> Tail(buf), wake |-> wake, wseq |-> wseq, pend |-> pend, pubs |-> <<>>, mon |-> mon,
                 idlePending |-> IF tick.k = "idlecheck" THEN FALSE ELSE idlePending, outcome |-> "none"]
-         x == Exec(r.cmds, 1, x0)
+         x1 == Exec(r.cmds, 1, x0)
+         x == [x1 EXCEPT !.mon.baddeliv = @ \/ BadDelivery(tick, bs, r)]
      IN /\ bs' = r.st
         /\ tickLog' = IF TrackLog THEN Append(tickLog, tick) ELSE tickLog
         /\ buf' = x.buf /\ wake' = x.wake /\ wseq' = x.wseq /\ pubs' = x.pubs /\ mon' = x.mon
